@@ -83,6 +83,16 @@ Definition wf_extra (d : typedef) (v : value) : bool :=
   | _ => false
   end.
 
+(* all fields of a struct value, position by position: [P] on the fields XML carries, [Q] on
+   the fields it does not (xml:"-") *)
+Fixpoint fields_all (P Q : gotype -> value -> bool) (fs : list field) (vs : list value) : bool :=
+  match fs, vs with
+  | [], [] => true
+  | f :: fs', x :: vs' =>
+      (if x_skip (f_xml f) then Q (f_type f) x else P (f_type f) x) && fields_all P Q fs' vs'
+  | _, _ => false
+  end.
+
 (* b is the Go zero value of type ty (to depth n; types outside the universe are not inspected) *)
 Fixpoint zero_like (n : nat) (ty : gotype) (b : value) : bool :=
   match n with
@@ -96,13 +106,7 @@ Fixpoint zero_like (n : nat) (ty : gotype) (b : value) : bool :=
       | RTime, VTime t => t =? zero_time
       | RPtr _, VPtr None => true
       | RSlice _, VList [] => true
-      | RStruct d, VStruct bs =>
-          (fix go (fs : list field) (bs : list value) : bool :=
-             match fs, bs with
-             | [], [] => true
-             | f :: fs', x :: bs' => zero_like n' (f_type f) x && go fs' bs'
-             | _, _ => false
-             end) (struct_fields d) bs
+      | RStruct d, VStruct bs => fields_all (zero_like n') (zero_like n') (struct_fields d) bs
       | RBad, _ => true
       | _, _ => false
       end
@@ -119,15 +123,7 @@ Fixpoint wf (n : nat) (ty : gotype) (v : value) : bool :=
       | RPtr t, VPtr (Some v') => wf n' t v'
       | RSlice t, VList l => forallb (fun x => wf n' t x && negb (is_nil_ptr x)) l
       | RStruct d, VStruct vs =>
-          (fix go (fs : list field) (vs : list value) : bool :=
-             match fs, vs with
-             | [], [] => true
-             | f :: fs', x :: vs' =>
-                 (if x_skip (f_xml f) then zero_like n' (f_type f) x else wf n' (f_type f) x)
-                 && go fs' vs'
-             | _, _ => false
-             end) (struct_fields d) vs
-          && wf_extra d v
+          fields_all (wf n') (zero_like n') (struct_fields d) vs && wf_extra d v
       | _, _ => false
       end
   end.
